@@ -91,15 +91,18 @@ func (w *muxerMP4) writeFinalDTS(dts int64) {
 }
 
 func (w *muxerMP4) flush() error {
-	if w.curTrack == nil || len(w.curTrack.Samples) == 0 || w.curTrack.lastDTS < 0 {
-		return recordstore.ErrNoSegmentsFound
-	}
-
+	// use tracks that have at least a sample inside the requested window.
+	// do not look at the current track only: it is the last one that has been read,
+	// other ones might have samples inside the window.
 	var tracks []*pmp4.Track
 	for _, track := range w.tracks {
-		if len(track.Samples) != 0 {
+		if len(track.Samples) != 0 && track.lastDTS >= 0 {
 			tracks = append(tracks, &track.Track)
 		}
+	}
+
+	if tracks == nil {
+		return recordstore.ErrNoSegmentsFound
 	}
 
 	h := pmp4.Presentation{
